@@ -488,7 +488,7 @@ def coq_eval_nobuild(tag, prelude, items, timeout=900):
 
 def eval_batches(ctx, cases, tag):
     """cases: list of dict(blk, p, hist, rows).  Returns list of (case, model_diff, spec_diff) for the failing ones."""
-    B = 300
+    B = min(1200, max(100, -(-len(cases) // 8)))         # 8 parallel case files: the fixed cost of a file (library loading) dominates
     batches = [cases[i:i + B] for i in range(0, len(cases), B)]
     def run(ib):
         i, batch = ib
@@ -496,7 +496,10 @@ def eval_batches(ctx, cases, tag):
         for c in batch:
             h = rows_term(c['hist'])
             terms.append('cmp %s (%s %s) (%s %s)' % (rows_term(c['rows']), c['blk'].model(c['p']), h, c['blk'].spec(c['p']), h))
-        res = coq_eval_nobuild('%s_%d' % (tag, i), PRELUDE, [('f', 'failing [' + ';\n '.join(terms) + ']')], timeout=900)
+        # long list literals elaborate super-linearly: chunks of 40 cases as separate definitions
+        chunks = [terms[j:j + 40] for j in range(0, len(terms), 40)]
+        pre = PRELUDE + ''.join('Definition chunk%d := [%s].\n' % (j, ';\n '.join(ch)) for j, ch in enumerate(chunks))
+        res = coq_eval_nobuild('%s_%d' % (tag, i), pre, [('f', 'failing (%s)' % ' ++ '.join('chunk%d' % j for j in range(len(chunks))))], timeout=900)
         return [(batch[k], md, sd) for (k, (md, sd)) in res['f']]
     b = common.build(['Model/SeqBlocksRun.vo'], timeout=900)
     if not b['ok']:
@@ -688,12 +691,14 @@ def run(ctx):
         ctx.notes['sweep_error'] = str(ex)[-2000:]
         spec_f, model_f = [], [('coq', str(ex)[-1500:], None)]
         r = dict(r); r['ok'] = False; r.setdefault('msg', str(ex)[-1500:])
+    ctx.log('correspondence sweep done: %d spec mismatches, %d model mismatches' % (len(spec_f), len(model_f)))
     nl_bad = []
     try:
         nl_bad = netlist_tie(ctx, random.Random(ctx.seed + 5), 8 if ctx.quick else 30)
     except Exception as ex:
         ctx.notes['netlist_tie_error'] = traceback.format_exc()[-1500:]
         nl_bad = [(('netlist', {}), 'error: %s' % ex)]
+    ctx.log('netlist tie done: %s' % (nl_bad or 'ok'))
     tie_ok = not missing and r['ok'] and not model_f and not nl_bad
     if spec_f:
         report_spec_failures(ctx, spec_f)
